@@ -157,6 +157,21 @@ func main() {
 		}
 		v.VerifyFunction(key)
 	}
+	// a contract borrowed from an implementation (`sameas`) is only as good as the verification of that implementation
+	for k, target := range v.sameAsUsed {
+		verified := false
+		for _, f := range cfg.Functions {
+			if f == target {
+				verified = true
+			}
+		}
+		if t := v.specs[target]; t != nil && t.Trusted {
+			verified = true // a trusted leaf: already reported as an assumption
+		}
+		if !verified {
+			v.engineErrors = append(v.engineErrors, fmt.Sprintf("%s: sameas %s, but that function is not verified in this configuration", k, target))
+		}
+	}
 	v.splitKnown()
 	genS := time.Since(t1).Seconds()
 	t2 := time.Now()
